@@ -678,21 +678,27 @@ func TestVerifC32(t *testing.T) {
 		{"join-new-voter", "rejoin-same", "rejoin-other-role", "new-id-on-used-address", "join-new-nonvoter", "rejoin-other-role", "rejoin-new-address",
 			"ghost-nonvoter", "used-id-on-new-address", "join-on-follower", "reap-observation", "remove-unknown", "remove-member", "reap-observation"},
 	}
-	for _, sc := range directed {
-		ops, impl, ok := c32RunHistory(t, rep, r, len(sc), maxReal, sc)
+	guarded := func(nOps int, script []string) {
+		var ops, impl []string
+		ok := false
+		fin, dump := clu8Guard(10*time.Minute, func() { ops, impl, ok = c32RunHistory(t, rep, r, nOps, maxReal, script) })
+		if !fin {
+			rep.Note("C32: a history did not finish within 10 min and was abandoned; goroutines: %s", dump)
+			rep.Count("histories-abandoned-by-watchdog")
+			return
+		}
 		if ok {
 			completed++
 		}
 		segOps, segImpl = append(segOps, ops), append(segImpl, impl)
 	}
+	for _, sc := range directed {
+		guarded(len(sc), sc)
+	}
 	hists := vfScale(1, 25)
 	nOps := vfScale(14, 30)
 	for i := 0; i < hists; i++ {
-		ops, impl, ok := c32RunHistory(t, rep, r, nOps, maxReal, nil)
-		if ok {
-			completed++
-		}
-		segOps, segImpl = append(segOps, ops), append(segImpl, impl)
+		guarded(nOps, nil)
 	}
 	rep.CountN("histories-completed", completed)
 	if completed == 0 {
